@@ -331,6 +331,7 @@ pub fn run_c14(tier: &str) -> i32 {
                 }
                 let r = b.run(&src, Mode::Build, true, true);
                 rep.tv(1);
+                rep.tr(1);
                 rep.add("whole_files", 1);
                 compare_c01(rep, "whole file", &src, true, &m, &r);
                 // "The result is identical on every run": repeat files that hold several tags at once
